@@ -55,7 +55,9 @@ CONSTANTS
   EngTargets,         \* [Engines -> SUBSET InitTargets]  initial membership
   EngSensors,         \* [Engines -> SUBSET InitSensors]
   Policy,             \* [Engines -> {"munkres","greedy","random","allvisible"}]
-  NSteps,             \* number of physics steps of the configured span
+  NSteps,             \* number of physics steps that may be taken
+  SpanSteps,          \* steps of the CONFIGURED span (start..stop): the clock pre-populates these epoch rows;
+                      \* a run may continue beyond it, saveDatabaseOutput then inserts the epoch row itself
   Dt,                 \* ticks (seconds) per physics step
   OutDt,              \* output interval in ticks: rows are written when clock time % OutDt = 0
   Events,             \* set of event records [id, kind, t0, t1, who, eng, tgt, planned]
@@ -147,8 +149,8 @@ Feasible(e, v) ==
     [] Policy[e] = "allvisible" -> {v}
 
 InitPairs == UNION {EngTargets[e] \X EngSensors[e] : e \in Engines}
-\* the clock pre-populates the epoch table for the whole configured span (0..NSteps)
-DbInit == [epochs |-> 0..NSteps,
+\* the clock pre-populates the epoch table for the whole configured span (0..SpanSteps)
+DbInit == [epochs |-> 0..SpanSteps,
            truth  |-> BagOfSet({<<0, a>> : a \in InitTargets \cup InitSensors}),
            est    |-> IF WithEstimation THEN BagOfSet({<<0, t>> : t \in InitTargets}) ELSE EmptyBag,
            obs    |-> EmptyBag,      \* <<step, tObs, s>> -> count
@@ -436,7 +438,7 @@ JoinUpdate ==
 IsOutputStep == (k * Dt) % OutDt = 0
 
 Written ==
-  [epochs |-> db.epochs \cup {k},
+  [epochs |-> db.epochs \cup {k} \cup {o[1] : o \in savedObs} \cup {x[1] : x \in DOMAIN savedMiss},   \* every epoch a saved row refers to
    truth  |-> BagUnion(db.truth, BagOfSet({<<k, a>> : a \in Agents})),
    est    |-> IF WithEstimation THEN BagUnion(db.est, BagOfSet({<<k, t>> : t \in targets})) ELSE db.est,
    obs    |-> FoldSet(LAMBDA o, b : BagAdd(b, <<o[1], o[2], o[3]>>, 1), db.obs, savedObs),
